@@ -59,6 +59,16 @@ func (g *G) TimerCase(impl string) TimerCase {
 			}
 		case 4, 5:
 			c.Script = append(c.Script, TimerStep{Do: "rem", Id: g.PickS(timerIds...)})
+			if i%3 == 1 {
+				// the host is busy elsewhere while a timer comes due, and the next thing it handles is
+				// another timers request (queued ahead of the firing)
+				st := newAdd(10)
+				c.Script = append(c.Script, st, TimerStep{Do: "busy", Ms: 18}, TimerStep{Do: g.PickS("rem", "add"), Id: g.PickS(timerIds...), Delay: 40, Tag: tag + 1})
+				tag++
+				if maxDelay < 60 {
+					maxDelay = 60
+				}
+			}
 		case 6:
 			c.Script = append(c.Script, TimerStep{Do: "pending"})
 		default:
